@@ -413,42 +413,50 @@ func runC13Reuse(c *Ctx, w *c13Workload) {
 		}
 		buf := make([]string, n, n+r.Intn(n+2))
 		a := mkContents(n)
-		copy(buf, a)
-		c.evals += 2
-		if got, want := satStr(e, buf), satStr(e, append([]string{}, a...)); got != want {
-			differs("first-use", "first call on a new buffer", got, want, map[string]any{"expr": ev.QS(e), "list": ev.QSs(a)})
-		}
-		// in-place overwrite with other contents of the same length
 		b := mkContents(n)
 		if r.Chance(1, 2) { // change a single entry only
 			b = append([]string{}, a...)
 			b[r.Intn(n)] = r.Pick([]string{"NOT-A-LICENSE", "MIT", r.Pick(u.InTable) + "+", "LicenseRef-other"})
 		}
-		copy(buf, b)
-		c.evals += 2
-		if got, want := satStr(e, buf), satStr(e, append([]string{}, b...)); got != want {
-			differs("overwrite", fmt.Sprintf("Satisfies(%q, buf) after buf (len %d) was overwritten in place", e, n), got, want, map[string]any{"expr": ev.QS(e), "before": ev.QSs(a), "after": ev.QSs(b)})
-		}
-		c.evals += 2
-		if got, want := valStr(buf), valStr(append([]string{}, b...)); got != want {
-			differs("overwrite-validate", "ValidateLicenses(buf) after an in-place overwrite", got, want, map[string]any{"after": ev.QSs(b)})
-		}
-		// refill buf[:0] with another number of entries
 		m := 1 + r.Intn(cap(buf))
 		d := mkContents(m)
-		buf2 := append(buf[:0], d...)
-		c.evals += 2
-		if got, want := satStr(e, buf2), satStr(e, append([]string{}, d...)); got != want {
-			differs("refill", fmt.Sprintf("Satisfies(%q, buf[:0] refilled with %d entries)", e, m), got, want, map[string]any{"expr": ev.QS(e), "before": ev.QSs(b), "after": ev.QSs(d)})
+		// all calls on the reused backing array first, back to back (a memo keyed on the slice's identity must not get a
+		// chance to be displaced by the comparison calls), then the same contents in fresh slices
+		copy(buf, a)
+		g1 := satStr(e, buf)
+		copy(buf, b) // in-place overwrite with other contents of the same length
+		g2 := satStr(e, buf)
+		g2v := valStr(buf)
+		buf2 := append(buf[:0], d...) // refill buf[:0] with another number of entries
+		g3 := satStr(e, buf2)
+		g3v := valStr(buf2)
+		var g4, g5 string
+		if m >= 3 { // sub-slices of the same backing array at other offsets
+			g4 = satStr(e, buf2[1:])
+			g5 = satStr(e, buf2[:m-1])
 		}
-		// sub-slices of one backing array at different offsets
+		c.evals += 14
+		if want := satStr(e, append([]string{}, a...)); g1 != want {
+			differs("first-use", "first call on a new buffer", g1, want, map[string]any{"expr": ev.QS(e), "list": ev.QSs(a)})
+		}
+		if want := satStr(e, append([]string{}, b...)); g2 != want {
+			differs("overwrite", fmt.Sprintf("Satisfies(%q, buf) after buf (len %d) was overwritten in place", e, n), g2, want, map[string]any{"expr": ev.QS(e), "before": ev.QSs(a), "after": ev.QSs(b)})
+		}
+		if want := valStr(append([]string{}, b...)); g2v != want {
+			differs("overwrite-validate", "ValidateLicenses(buf) after an in-place overwrite", g2v, want, map[string]any{"after": ev.QSs(b)})
+		}
+		if want := satStr(e, append([]string{}, d...)); g3 != want {
+			differs("refill", fmt.Sprintf("Satisfies(%q, buf[:0] refilled with %d entries)", e, m), g3, want, map[string]any{"expr": ev.QS(e), "before": ev.QSs(b), "after": ev.QSs(d)})
+		}
+		if want := valStr(append([]string{}, d...)); g3v != want {
+			differs("refill-validate", "ValidateLicenses(buf[:0] refilled)", g3v, want, map[string]any{"after": ev.QSs(d)})
+		}
 		if m >= 3 {
-			c.evals += 4
-			if got, want := satStr(e, buf2[1:]), satStr(e, append([]string{}, d[1:]...)); got != want {
-				differs("subslice", "Satisfies on buf[1:] of a backing array used before", got, want, map[string]any{"expr": ev.QS(e), "list": ev.QSs(d[1:])})
+			if want := satStr(e, append([]string{}, d[1:]...)); g4 != want {
+				differs("subslice", "Satisfies on buf[1:] of a backing array used before", g4, want, map[string]any{"expr": ev.QS(e), "list": ev.QSs(d[1:])})
 			}
-			if got, want := satStr(e, buf2[:m-1]), satStr(e, append([]string{}, d[:m-1]...)); got != want {
-				differs("subslice", "Satisfies on buf[:n-1] of a backing array used before", got, want, map[string]any{"expr": ev.QS(e), "list": ev.QSs(d[:m-1])})
+			if want := satStr(e, append([]string{}, d[:m-1]...)); g5 != want {
+				differs("subslice", "Satisfies on buf[:n-1] of a backing array used before", g5, want, map[string]any{"expr": ev.QS(e), "list": ev.QSs(d[:m-1])})
 			}
 		}
 		c.Inc("reuse_cases")
